@@ -757,7 +757,13 @@ def rule_stable(ctx: Ctx) -> None:
     fp = ctx.prog.func(f"{MOD}.DiskCache._get_file_path")
     src = Scope(ctx, fp).text()
     unstable = [w for w in ("hash(", "id(") if w in src.replace("hashlib", "").replace("md5(", "")]
-    ctx.tri("7-stable", fp, fp.node, "_pickle_key(" in src and not unstable, bool(unstable), "file name derives from _pickle_key(key)", f"DiskCache file names use {unstable}: they differ between processes", "file name derivation not recognised", key="def _get_file_path")
+    kp = [p_ for p_ in fp.param_names() if p_ != "self"][:1]
+    lossy_fp = [c for f_ in Scope(ctx, fp).funcs for c in ast.walk(f_.node) if isinstance(c, ast.Call) and dotted(c.func) in ("repr", "str", "format", "ascii") and c.args and kp and norm(c.args[0]) == kp[0]]
+    if lossy_fp and "dumps(" not in src:
+        ctx.add("7-stable", fp, lossy_fp[0], False, f"DiskCache names the file after `{norm(lossy_fp[0])[:30]}` instead of the pickled key: the text of a key is not injective (1 and '1', 1 and 1.0 and True inside containers, "
+                "objects whose repr hides fields) - unequal keys share a file and the cache returns the stored result of another call", key="def _get_file_path")
+    else:
+        ctx.tri("7-stable", fp, fp.node, "_pickle_key(" in src and not unstable, bool(unstable), "file name derives from _pickle_key(key)", f"DiskCache file names use {unstable}: they differ between processes", "file name derivation not recognised", key="def _get_file_path")
 
 
 BUILDERS = {"to_hashable", "try_to_hashable", "key_func"}
